@@ -698,6 +698,9 @@ class Evaluator:
     def ev_Ret(self, e, st):
         if "e" in e:
             for s, v in self.ev(e["e"], st):
+                if s.ret is not None:
+                    yield s, ("unit",)          # `return match x { .. => { ..; return true; } .. }`: an inner return already left the function on this path
+                    continue
                 s2 = s.fork()
                 s2.ret = v
                 yield s2, ("unit",)
@@ -1064,6 +1067,25 @@ class Evaluator:
             yield s2, v
 
     def _ev_call(self, e, st):
+        if getattr(self, "vecs", False) and e.get("m") == "vec!" and re.search(r"into_vec|box_assume_init_into_vec", str(e.get("callee") or "")):
+            # `vec![a, b]`: the array literal inside the macro's expansion
+            arrs = []
+
+            def find(n):
+                if isinstance(n, dict):
+                    if n.get("k") == "Array":
+                        arrs.append(n)
+                        return
+                    for v in n.values():
+                        if isinstance(v, (dict, list)):
+                            find(v)
+                elif isinstance(n, list):
+                    for x in n:
+                        find(x)
+            find(e.get("args", []))
+            if len(arrs) == 1:
+                yield from self.ev(arrs[0], st)
+                return
         callee = e.get("callee")
         if callee is None and isinstance(e.get("f"), dict):
             f = e["f"]
